@@ -393,11 +393,12 @@ class OracleQueryBuilder(FetchNextAndOffsetRowsQueryBuilder):
     def __init__(self, **kwargs: Any) -> None:
         super().__init__(dialect=Dialects.ORACLE, **kwargs)
 
-    def get_sql(self, *args: Any, **kwargs: Any) -> str:
+    def _set_kwargs_defaults(self, kwargs: dict) -> None:
+        super()._set_kwargs_defaults(kwargs)
         # Oracle does not support group by a field alias
-        # Note: set directly in kwargs as they are re-used down the tree in the case of subqueries!
+        # Note: set directly in kwargs as they are re-used down the tree in the case of subqueries
+        # (and by the operands of a set operation whose base query this is)!
         kwargs['groupby_alias'] = False
-        return super().get_sql(*args, **kwargs)
 
     def _apply_pagination(self, querystring: str, **kwargs) -> str:
         # Note: Overridden as Oracle specifies offset before the fetch next limit
@@ -780,11 +781,12 @@ class MSSQLQueryBuilder(FetchNextAndOffsetRowsQueryBuilder):
 
         return querystring
 
-    def get_sql(self, *args: Any, **kwargs: Any) -> str:
+    def _set_kwargs_defaults(self, kwargs: dict) -> None:
+        super()._set_kwargs_defaults(kwargs)
         # MSSQL does not support group by a field alias.
-        # Note: set directly in kwargs as they are re-used down the tree in the case of subqueries!
+        # Note: set directly in kwargs as they are re-used down the tree in the case of subqueries
+        # (and by the operands of a set operation whose base query this is)!
         kwargs['groupby_alias'] = False
-        return super().get_sql(*args, **kwargs)
 
     def _top_sql(self) -> str:
         _top_statement: str = ""
